@@ -267,6 +267,7 @@ type lsMsg struct {
 	failed   bool
 	shown    int
 	nearMiss bool
+	viaBatch bool // split through BatchDataCodingEncoder.Build with the requested coding as the only candidate
 }
 
 type airPart struct {
@@ -309,6 +310,9 @@ func runLongSMS(r *core.Run) {
 			m.vendor = true
 			m.proto = "vendor"
 			m.reqFam, m.fam = famUCS2, famUCS2
+		}
+		if !m.vendor && m.reqFam != famNone && c.Prob(1, 4) {
+			m.viaBatch = true
 		}
 		// the text is generated for the requested family in most runs, for another one otherwise (forces the fallback)
 		gf := m.reqFam
@@ -462,7 +466,21 @@ func splitAndSend(r *core.Run, ctx context.Context, m *lsMsg, air *[]airPart) bo
 	if m.proto == "smpp" {
 		label = "EncodeSMPPContentAndSplit"
 	}
+	if m.viaBatch && m.text != "" {
+		label = "BatchDataCodingEncoder.Build"
+		r.Probe("split_via_batch_encoder")
+	}
 	p := r.Call(label, func() {
+		if m.viaBatch && m.text != "" {
+			pr, dc := protocol.CMPP, datacoding.ProtocolDataCoding(datacoding.CMPPDataCoding(m.req))
+			if m.proto == "smpp" {
+				pr, dc = protocol.SMPP, datacoding.SMPPDataCoding(m.req)
+			}
+			var a datacoding.ProtocolDataCoding
+			parts, a, err = protocol.NewBatchDataCodingEncoder().Protocol(pr).Content(m.text, m.ref).DataCodings([]datacoding.ProtocolDataCoding{dc}).Build(ctx)
+			actual = reflectInt(a)
+			return
+		}
 		if m.proto == "smpp" {
 			var a datacoding.SMPPDataCoding
 			parts, a, err = protocol.EncodeSMPPContentAndSplit(ctx, m.text, datacoding.SMPPDataCoding(m.req), m.ref)
